@@ -100,7 +100,7 @@ crate::fs_harness!(c09_fail_read_io @ 5 => {
         assert!(FREED == 1, "C09: a failed load must release the backing region exactly once (0 = leak, 2 = double free)");
     }
 });
-crate::fs_harness!(c09_fail_read_error @ 5 => {
+crate::fs_harness_r!(crate::fsenv::read_ok_stub; c09_fail_read_error @ 5 => {
     let (_x, path) = file_of::<U32>();
     #[cfg(kani)]
     unsafe { FILE_OVER = 5; }
